@@ -33,4 +33,6 @@ const (
 const (
 	// maxArrayDepth is the maximum nesting depth of arrays in a message.
 	maxArrayDepth = 128
+	// maxEmptyReads is the number of consecutive reads without a byte and without an error after which a reader is given up.
+	maxEmptyReads = 100
 )
